@@ -22,6 +22,11 @@ import (
 	"time"
 )
 
+type multiFlag []string
+
+func (m *multiFlag) String() string     { return strings.Join(*m, ",") }
+func (m *multiFlag) Set(v string) error { *m = append(*m, v); return nil }
+
 type ruleFn struct {
 	ID string
 	Fn func(r *Run)
@@ -46,7 +51,8 @@ func main() {
 	noSelf := flag.Bool("no-selftest", false, "thorough tier without the mutant self-test")
 	selftestOnly := flag.Bool("selftest", false, "run only the mutant self-test for the property (or all) and print the kill matrix")
 	naive := flag.Bool("naive", false, "build SSA in NaiveForm (no register lifting)")
-	overlayFlag := flag.String("overlay", "", "orig=replacement: analyse with file orig replaced by the contents of replacement")
+	var overlayFlag multiFlag
+	flag.Var(&overlayFlag, "overlay", "orig=replacement: analyse with file orig replaced by the contents of replacement (repeatable)")
 	goos := flag.String("goos", "", "GOOS for loading")
 	goarch := flag.String("goarch", "", "GOARCH for loading")
 	quiet := flag.Bool("quiet-evidence", false, "do not write evidence (used for sub-runs on scratch copies)")
@@ -111,14 +117,17 @@ func main() {
 	start := time.Now()
 	abs, _ := filepath.Abs(*repo)
 	var overlay map[string][]byte
-	if *overlayFlag != "" {
-		kv := strings.SplitN(*overlayFlag, "=", 2)
+	for _, ov := range overlayFlag {
+		kv := strings.SplitN(ov, "=", 2)
 		data, err := os.ReadFile(kv[1])
 		if err != nil {
 			fmt.Println(err)
 			os.Exit(2)
 		}
-		overlay = map[string][]byte{kv[0]: data}
+		if overlay == nil {
+			overlay = map[string][]byte{}
+		}
+		overlay[kv[0]] = data
 	}
 	var extraEnv []string
 	if *goos != "" {
